@@ -510,7 +510,12 @@ func (f *FuncCtx) freshFacts(r, srt string, env *Env) {
 	for o := range env.vars {
 		objs = append(objs, o)
 	}
-	sort.Slice(objs, func(i, j int) bool { return objs[i].Pos() < objs[j].Pos() })
+	sort.Slice(objs, func(i, j int) bool {
+		if a, b := f.posKey(objs[i]), f.posKey(objs[j]); a != b {
+			return a < b
+		}
+		return objs[i].Name() < objs[j].Name()
+	})
 	for _, o := range objs {
 		v := env.vars[o]
 		if v.Clo != nil || v.Typ == nil || v.T == "" {
